@@ -371,6 +371,17 @@ class Calls:
         ca = w.class_const(cls, name)
         if ca is not None:
             return ca
+        dynf = w.classes[cls].get('dyn_fields') or {}
+        if name in dynf:
+            # an attribute that only some instances have (hasattr(self, name) decides): the per-object dynamic attribute map
+            d = w.dynattr
+            sname = z3.StringVal(name)
+            has = z3.Select(z3.Select(d.has_arr(it), V.oid(obj.t)), sname)
+            if not it.branch(has, f'has attribute {name}'):
+                it.raise_('AttributeError')
+            val = z3.Select(z3.Select(d.val_arr(it), V.oid(obj.t)), sname)
+            w.element_kind(it, val, dynf[name])
+            return SV(val, _static(dynf[name]), node)
         if w.classes[cls].get('open_fields'):
             # attribute not declared anywhere: AttributeError or a value, as the class schema says
             raise Unsupported(f'undeclared attribute {cls}.{name}')
